@@ -192,6 +192,15 @@ class SelectContext(Selector):
         else:
             return res
 
+    def __repr__(self):
+        if self._raise_on_error is False:
+            return "SelectContext({}, {}, raise_on_error=False)".format(
+                repr(self._key), repr(self._predicate)
+            )
+        return "SelectContext({}, {})".format(
+            repr(self._key), repr(self._predicate)
+        )
+
 
 class And(Selector):
     """And-test of multiple selectors."""
